@@ -1,6 +1,7 @@
 import AcraModel.KeystoreSec.ConcurrentSeq
 import AcraModel.KeystoreSec.ConcurrentOrder
 import AcraModel.KeystoreSec.ConcurrentRefine
+import AcraModel.KeystoreSec.ConcurrentFresh
 /-!
 # C17 — concurrent keystore writers never lose each other's updates
 
@@ -267,6 +268,34 @@ theorem seqnums_unique_increasing_numbered (s0 : St) (h0 : Initial s0) (p : Nat)
   · intro i hi
     obtain ⟨m, hmn, hm⟩ := hsnap i hi
     exact snapPrefix_of_numbered _ _ m (n - m) hm (by rw [hcur]; congr 1; omega)
+
+/-- **A stale snapshot is safe, strong form: it either fails or does what a fresh handle does.** For a
+ring without imports (`OrderedStart`), at every point of the sequential run that `v2_linearizable` relates
+the concurrent execution to, the snapshot of every handle of the ring is a prefix of the stored ring;
+therefore whenever the handle's next operation succeeds from that (possibly stale) snapshot, the same
+operation started from a *fresh* snapshot of the stored ring prepares the same transactions, stores the
+same ring and returns the same result. (An operation that fails its optimistic check from a stale
+snapshot has no effect and refreshes the snapshot – `atomicOp`.) -/
+theorem stale_success_is_fresh_success (s0 : St) (h0 : Initial s0) (p : Nat) (hp : OrderedStart s0 p) (sched : List Nat)
+    (i : Nat) (hi : (s0.h i).path = p) :
+    let a := atomicRun (AState.init s0) (linTrace s0 sched)
+    SnapPrefix (a.snap i) (a.cur p) ∧
+    ∀ op txs r' sn', atomicOp (a.cur p) (a.snap i) op = (r', sn', some txs) →
+      atomicOp (a.cur p) (a.cur p) op = (r', sn', some txs) := by
+  intro a
+  have hinv0 := initial_inv s0 h0
+  have hsim0 : Sim s0 (AState.init s0) :=
+    ⟨fun _ => rfl, fun _ _ _ => rfl, by intro i hi; simp [h0.idle i] at hi,
+     by intro i; simp [resultsOf, AState.init, h0.done i, pending_of_pc (s0.h i) (by simp [h0.idle i])],
+     by simp [committed, AState.init, h0.commits]⟩
+  have h0o : OrdInv p s0 :=
+    ⟨hp.incr, hp.noImport, fun i hi _ => hp.snap i hi,
+     by intro i _ hc; rcases hc with hc | hc <;> simp [h0.idle i] at hc,
+     by intro i _ hc; simp [h0.idle i] at hc⟩
+  have hseq := run_seqPrefix s0.cur p s0 _ sched hinv0 hsim0 h0o (fun j hj => hp.snap j hj) i (by rw [run_path]; exact hi)
+  have hsim := run_sim s0.cur s0 _ sched hinv0 hsim0
+  have hpre : SnapPrefix (a.snap i) (a.cur p) := by rw [hsim.cur p]; exact hseq
+  exact ⟨hpre, fun op txs r' sn' h => atomicOp_fresh _ _ op txs r' sn' hpre h⟩
 
 /-! ## non-vacuity: a concrete race -/
 
